@@ -13,26 +13,46 @@ from cirkit.backend.torch.layers import TorchLayer
 _records: list[dict] = []
 
 
+UNOBSERVABLE = {"flag": False}
+
+
 @contextlib.contextmanager
 def spy():
-    """Record every layer-level call of build_folded_graph made by the compiler."""
-    orig = CC.build_folded_graph
+    """Record every layer-level call of build_folded_graph made by the compiler. If the function is gone or is
+    called differently after a refactoring, nothing is recorded (UNOBSERVABLE) and the compilation is untouched."""
+    import inspect
+    orig = getattr(CC, "build_folded_graph", None)
     _records.clear()
+    if orig is None:
+        UNOBSERVABLE["flag"] = True
+        yield _records
+        return
 
-    def wrapped(ordering, *, outputs, incomings_fn, fold_group_fn):
-        frontiers = [list(f) for f in ordering]
-        outs = list(outputs)
+    def wrapped(*args, **kwargs):
+        try:
+            bound = inspect.signature(orig).bind(*args, **kwargs)
+            a = bound.arguments
+            frontiers = [list(f) for f in a["ordering"]]
+            outs = list(a["outputs"])
+            incomings_fn, fold_group_fn = a["incomings_fn"], a["fold_group_fn"]
+        except Exception:  # noqa: BLE001
+            UNOBSERVABLE["flag"] = True
+            return orig(*args, **kwargs)
         groups = []
 
         def group_fn(group):
             groups.append(list(group))
             return fold_group_fn(group)
 
-        res = orig(frontiers, outputs=outs, incomings_fn=incomings_fn, fold_group_fn=group_fn)
-        flat = [m for f in frontiers for m in f]
-        if flat and isinstance(flat[0], TorchLayer):
-            _records.append({"frontiers": frontiers, "outputs": outs, "incomings_fn": incomings_fn,
-                             "groups": groups, "info": res[3], "modules": res[0]})
+        a["ordering"], a["outputs"], a["fold_group_fn"] = frontiers, outs, group_fn
+        res = orig(*bound.args, **bound.kwargs)
+        try:
+            flat = [m for f in frontiers for m in f]
+            if flat and isinstance(flat[0], TorchLayer):
+                _records.append({"frontiers": frontiers, "outputs": outs, "incomings_fn": incomings_fn,
+                                 "groups": groups, "info": res[3], "modules": res[0]})
+        except Exception:  # noqa: BLE001
+            UNOBSERVABLE["flag"] = True
         return res
 
     CC.build_folded_graph = wrapped
